@@ -73,7 +73,9 @@ RECURSIVE Concat(_)
 Concat(rs) == IF rs = <<>> THEN <<>> ELSE Segment(Head(rs)) \o Concat(Tail(rs))
 Planned(f) == Concat(RefsOf(f))
 PreLen(f) == CASE pre[f] = "absent" -> 0 [] pre[f] = "shorter" -> Max2(size[f] - 1, 0)
-               [] pre[f] = "same" -> size[f] [] pre[f] = "longer" -> size[f] + 2
+               [] pre[f] \in {"same", "twin"} -> size[f] [] pre[f] = "longer" -> size[f] + 2
+\* "twin": other bytes of the same length whose modification time equals the recorded one (a damaged copy made with cp -p / rsync -t):
+\* size and time say nothing about content
 Restored(f) == LET w == Planned(f) IN
                IF TruncateOnRestore \/ PreLen(f) <= Len(w) THEN w
                ELSE w \o [k \in 1..(PreLen(f) - Len(w)) |-> <<"old">>]
@@ -90,8 +92,8 @@ TilingHolds == stage = "done" =>
 Init == stage = "sizes" /\ size = [f \in Files |-> 0] /\ args = <<>> /\ cuts = {} /\ pre = [f \in Files |-> "absent"]
 PickSizes == stage = "sizes" /\ \E s \in [Files -> Sizes] : size' = s /\ stage' = "args" /\ UNCHANGED <<args, cuts, pre>>
 PickArgs == stage = "args" /\ \E n \in 1..MaxArgs : \E a \in [1..n -> Files \cup {Dir, Dir2}] : args' = a /\ stage' = "pre" /\ UNCHANGED <<size, cuts, pre>>
-PickPre == stage = "pre" /\ \E p \in [Files -> {"absent", "shorter", "same", "longer"}] :
-              /\ \A f \in Files : (f \notin Wanted => p[f] = "absent") /\ (p[f] = "shorter" => size[f] > 0)
+PickPre == stage = "pre" /\ \E p \in [Files -> {"absent", "shorter", "same", "twin", "longer"}] :
+              /\ \A f \in Files : (f \notin Wanted => p[f] = "absent") /\ (p[f] \in {"shorter", "twin"} => size[f] > 0)
               /\ pre' = p /\ stage' = "cuts" /\ UNCHANGED <<size, args, cuts>>
 CutSets == IF Total <= 1 THEN {{}} ELSE {c \in SUBSET (1..(Total - 1)) : Cardinality(c) <= MaxCuts}
 PickCuts == stage = "cuts" /\ \E c \in CutSets : cuts' = c /\ stage' = "done" /\ UNCHANGED <<size, args, pre>>
